@@ -324,6 +324,11 @@ func GuardsOfBlock(b *ssa.BasicBlock) []Atom {
 		}
 		td := len(t.Preds) == 1 && (t == b || t.Dominates(b))
 		fd := len(f.Preds) == 1 && (f == b || f.Dominates(b))
+		if fd && !td && countingLoopExit(d, iff) {
+			// "the counting loop before this block has finished" is not a condition on the data: a `for i := 0; i < len(xs); i++`
+			// written out by hand reads like the range loop it replaces (whose exit test rules skip by its rangeindex name)
+			continue
+		}
 		if td && !fd {
 			out = append(out, Atom{iff.Cond, true})
 		} else if fd && !td {
@@ -331,6 +336,55 @@ func GuardsOfBlock(b *ssa.BasicBlock) []Atom {
 		}
 	}
 	return out
+}
+
+// countingLoopExit: d is the header of a hand-written counting loop - its test compares a phi of d that every back edge
+// increments by one with a length or another value not computed in the loop - and the false edge leaves the loop.
+func countingLoopExit(d *ssa.BasicBlock, iff *ssa.If) bool {
+	cmp, ok := iff.Cond.(*ssa.BinOp)
+	if !ok || (cmp.Op != token.LSS && cmp.Op != token.NEQ) {
+		return false
+	}
+	ph, ok := cmp.X.(*ssa.Phi)
+	if !ok || ph.Block() != d || ph.Comment == "rangeindex" || len(ph.Edges) < 2 {
+		return false
+	}
+	incs := 0
+	for k, e := range ph.Edges {
+		back := d.Dominates(d.Preds[k])
+		if bo, isB := e.(*ssa.BinOp); isB && back && bo.Op == token.ADD && bo.X == ssa.Value(ph) {
+			if v, isC := ConstInt(bo.Y); isC && v == 1 {
+				incs++
+				continue
+			}
+		}
+		if back {
+			return false
+		}
+	}
+	if incs == 0 {
+		return false
+	}
+	// the bound is not computed from anything the loop changes: a len/cap of a value defined outside, a constant, a
+	// parameter or a value of a dominating block
+	bound := cmp.Y
+	if c, isCall := bound.(*ssa.Call); isCall {
+		if bi, isBi := c.Call.Value.(*ssa.Builtin); isBi && (bi.Name() == "len" || bi.Name() == "cap") && len(c.Call.Args) == 1 {
+			bound = c.Call.Args[0]
+			if u, isU := bound.(*ssa.UnOp); isU && u.Op == token.MUL {
+				// a field or variable read in the header: accepted (a loop shrinking its own slice is not a counting loop
+				// the rules would meet as a guard; the range form reads the length once, this one each round)
+				return true
+			}
+		}
+	}
+	switch x := bound.(type) {
+	case *ssa.Const, *ssa.Parameter, *ssa.FreeVar:
+		return true
+	case ssa.Instruction:
+		return x.Block() != d && x.Block().Dominates(d)
+	}
+	return false
 }
 
 func Guards(i ssa.Instruction) []Atom {
@@ -1119,6 +1173,19 @@ func pathCondsNoCtx(b *ssa.BasicBlock) [][]string {
 	return pathConds(b, map[*ssa.BasicBlock]bool{}, 0)
 }
 
+// pathCondsFrom: the conditions under which b executes, given that head (a dominator of b) does - what lies before head
+// is left out.
+func pathCondsFrom(b, head *ssa.BasicBlock) [][]string {
+	if head == nil || !(head == b || head.Dominates(b)) {
+		return pathCondsNoCtx(b)
+	}
+	pcStop = append(pcStop, head)
+	defer func() { pcStop = pcStop[:len(pcStop)-1] }()
+	return pathConds(b, map[*ssa.BasicBlock]bool{}, 0)
+}
+
+var pcStop []*ssa.BasicBlock
+
 var pcBusy = map[*ssa.Function]bool{}
 
 // pathCondsCtx: own path conditions combined with those of the call sites of an eligible helper.
@@ -1153,7 +1220,7 @@ func pathCondsCtx(b *ssa.BasicBlock, depth int) [][]string {
 }
 
 func pathConds(b *ssa.BasicBlock, onPath map[*ssa.BasicBlock]bool, depth int) [][]string {
-	if len(b.Preds) == 0 {
+	if len(b.Preds) == 0 || len(pcStop) > 0 && pcStop[len(pcStop)-1] == b {
 		return [][]string{{}}
 	}
 	if depth > 40 {
